@@ -17,6 +17,7 @@ def run(ctx):
     ctx.step(_p10h, ctx)
     ctx.step(_p13f, ctx)
     ctx.step(_p13g, ctx)
+    ctx.step(_p3u, ctx)
 
 
 def _p13e(ctx):
@@ -365,3 +366,57 @@ def _p13g(ctx):
     if n == 0:
         ctx.add('P13g', 'T-MUST', ctx.fn1(r'^multiqueue::MultiQueue::<.*>::new_internal$'), True,
                 'no value of a type of this crate is withheld from its destructor', sub='none')
+
+
+USER_CODE_RE = r'ops::(FnOnce::call_once|FnMut::call_mut|Fn::call)$|clone::Clone::clone$'
+CONSUMING_RE = r'QueueRW::drop_in_place$|QueueRW::forget_val$|ptr::drop_in_place$|ptr::read$|commit_direct$|Transaction::commit$|commit_attempt$'
+
+
+def _p3u(ctx):
+    """user code that unwinds (a view closure, a payload's Clone) must not trigger, on its way out, a destructor of this
+    crate that destroys a payload or moves a position: the operation was not completed, so the slot still belongs to
+    the stream (a guard that ends the slot's claim, formed *around* the closure, destroys the value and leaves it to be
+    received and destroyed again).  Read off the cleanup blocks the call unwinds into."""
+    F = ctx.F
+    n = 0
+    for name in sorted(F.fns):
+        f = F.fns[name]
+        if f.get('from_expansion') or not re.match(r'^(<)?(multiqueue|read_cursor|countedindex)::', name.lstrip('<&')):
+            continue
+        blocks = f['blocks']
+        for bi, b in enumerate(blocks):
+            t = b['term']
+            if b['cleanup'] or t['k'] != 'call' or t.get('unwind') is None:
+                continue
+            if not re.search(USER_CODE_RE, t.get('fn') or '') or t.get('rk') not in ('none', 'virtual', None):
+                continue
+            n += 1
+            bad = []
+            work, seen = [int(t['unwind'])], set()
+            while work:
+                ub = work.pop()
+                if ub is None or ub in seen or ub >= len(blocks):
+                    continue
+                seen.add(ub)
+                ct = blocks[ub]['term']
+                if ct['k'] == 'drop':
+                    for gl in ct.get('glue') or []:
+                        d = F.fns.get(gl['fn'])
+                        if d is None:
+                            continue
+                        callees = [(x_['term'].get('resolved') or '') for x_ in d['blocks'] if x_['term']['k'] == 'call'] + \
+                                  [(x_['term'].get('fn') or '') for x_ in d['blocks'] if x_['term']['k'] == 'call']
+                        if any(re.search(CONSUMING_RE, c_) for c_ in callees):
+                            bad.append(short_fn(gl['fn']))
+                # (drop flags are tested on the way: every cleanup block that can follow)
+                for k_ in ('t', 'otherwise', 'unwind'):
+                    v_ = ct.get(k_)
+                    if v_ is not None and str(v_).isdigit():
+                        work.append(int(v_))
+                for v_ in ct.get('targets') or []:
+                    work.append(int(v_))
+            ctx.add('P3u', 'T-GUARD', name, not bad, 'no payload-destroying / position-moving destructor runs when this user code unwinds' if not bad else
+                    'when the user code called at %s:%d unwinds, %s runs and destroys the payload / moves the position although the operation was not completed: the value is destroyed now and again later (handed to the next receive or to the queue destructor)'
+                    % (f['file'], b['line'], ', '.join(sorted(set(bad)))), where='%s:%d' % (f['file'], b['line']), sub='bb%d' % bi)
+    if n == 0:
+        ctx.add('P3u', 'T-GUARD', ctx.fn1(r'^multiqueue::MultiQueue::<.*>::try_recv_view$'), True, 'no call of user code with an unwind path in the queue modules', sub='none')
